@@ -1266,9 +1266,8 @@ func (ls *LState) SetTop(idx int) {
 func (ls *LState) Replace(idx int, value LValue) {
 	base := ls.currentLocalBase()
 	if idx > 0 {
-		reg := base + idx - 1
-		if reg < ls.reg.Top() {
-			ls.reg.Set(reg, value)
+		if idx <= ls.reg.Top()-base { // compared before adding: base+idx-1 need not fit an int
+			ls.reg.Set(base+idx-1, value)
 		}
 	} else if idx == 0 {
 	} else if idx > RegistryIndex {
@@ -1311,9 +1310,8 @@ func (ls *LState) Replace(idx int, value LValue) {
 func (ls *LState) Get(idx int) LValue {
 	base := ls.currentLocalBase()
 	if idx > 0 {
-		reg := base + idx - 1
-		if reg < ls.reg.Top() {
-			return ls.reg.Get(reg)
+		if idx <= ls.reg.Top()-base { // compared before adding: base+idx-1 need not fit an int
+			return ls.reg.Get(base + idx - 1)
 		}
 		return LNil
 	} else if idx == 0 {
